@@ -10,7 +10,7 @@ def txn_jobs(tier):
 
 def bus_jobs(tier):
     js = []
-    for subs, pubs, names in (((1, 2, 3), (2, 2, 2), (3, 2, 1)) if tier == "quick" else ((1, 3, 3), (2, 2, 3), (2, 3, 2), (3, 2, 2), (3, 3, 1))):
+    for subs, pubs, names in (((1, 2, 3), (2, 2, 2), (3, 2, 1)) if tier == "quick" else ((1, 3, 3), (2, 2, 3), (2, 3, 2), (3, 2, 2))):
         js.append({"id": f"O1.bus.subs{subs}.pubs{pubs}.names{names}", "func": "VerifH_C20_Bus", "conf": {"subs": subs, "pubs": pubs, "names": names}, "map_order": True,
                    "_obligation": "O1", "_covers": ["handled"], "unwind": 200, "_blocked_ok": False})
     js.append({"id": "twin.bus", "func": "VerifH_C20_BusReach", "conf": {}, "_obligation": "vacuity", "_expect": "twin", "_covers": ["end"]})
